@@ -1009,8 +1009,10 @@ func TestC10(t *testing.T) {
 				rep := ev.NewReporter("C10", "exploration")
 				rep.Violation("conversion-kills-the-process:"+strings.ReplaceAll(strings.TrimPrefix(fatal, "fatal error: "), " ", "-"), map[string]any{"what": "the sweep (" + fmt.Sprint(ev.Workers()) + " workers converting in parallel) ended with a Go runtime fatal error inside the package", "stderr": tail})
 				rep.Coverage["exhaustive"] = false
-				rep.Coverage["evaluations"] = 0
-				rep.Coverage["distinct_nontrivial"] = 0
+				n := homonyms(rep) // what can still be evaluated in this process, sequentially
+				rep.Coverage["homonym_type_evaluations"] = n
+				rep.Coverage["evaluations"] = n
+				rep.Coverage["distinct_nontrivial"] = n
 				rep.Coverage["rule"] = "none: the sweep did not finish, the process running it was ended by the Go runtime"
 				rep.Coverage["samples"] = []any{map[string]any{"stderr_of_the_sweep": tail}}
 				rep.Finish()
